@@ -178,7 +178,7 @@ let () =
       if mutated then bump "server_mutated";
       let agree = server_agrees up path d o in
       let spec = mutated || server_spec_ok up path x d o in
-      let kf = if (not mutated) && kf_nsdecl up path x d o then "C09-nsdecl-as-attribute" else "-" in
+      let kf = "-" in
       let detail = Printf.sprintf "model=%s rfc_read=%s conformant=%s"
           (show_res (handle_report up path d))
           (match rfc_read d with Some _ -> "request" | None -> "rejected")
